@@ -896,6 +896,7 @@ func cmdServe(args []string) {
 		reqs = append(reqs, shapeProbes(rng, s)...)
 		reqs = append(reqs, historyProbes(rng, s)...)
 		own := reqs
+		carryN := 0
 		if len(prevReqs) > 0 && !s.Pass {
 			// most recent first (a memo of the previous configuration's last request is hit at once), then the oldest ones
 			var carry []reqSpec
@@ -906,6 +907,7 @@ func cmdServe(args []string) {
 				carry = append(carry, prevReqs[i])
 			}
 			reqs = append(append(append([]reqSpec{}, carry...), reqs...), carry...)
+			carryN = len(carry)
 		}
 		if !s.Pass {
 			prevReqs = own
@@ -940,12 +942,16 @@ func cmdServe(args []string) {
 		for _, dbg := range []bool{false, true} {
 			m.SetDebug(dbg)
 			noise(m)
-			scribbleServe(m, reqs, dbg, 0)
 			for vi, vr := range variants {
 				t.emit(map[string]any{"ev": "Block", "dbg": dbg, "variant": vi})
 				for ri, rs := range reqs {
-					if ri == len(reqs)/2 {
-						scribbleServe(m, reqs, dbg, 3+vi) // ... and in the middle of the block: identical requests before and after it
+					// the scribbling handler runs AFTER the carry-over probes (nothing may touch what the previous configuration
+					// left behind before they look at it) and again in the middle of the block, with other words
+					if ri == carryN {
+						scribbleServe(m, reqs, dbg, vi)
+					}
+					if ri == (len(reqs)+carryN)/2 {
+						scribbleServe(m, reqs, dbg, 3+vi)
 					}
 					var extra map[string]any
 					inn := vr.inner
